@@ -9,7 +9,8 @@ namespace c09
   // runs one MultiGrid::apply on the rig and judges it against the recursive model
   template<typename Rig_>
   AppResult judge_application(vh::Ctx& c, const HierSpec& H, Rig_& rig, int top, int crs, int cycle, int cgc,
-                              const std::vector<double>& d, const char* which, std::uint64_t refseed)
+                              const std::vector<double>& d, const char* which, std::uint64_t refseed,
+                              bool exact_zeros = false, bool exact_first_rest = false)
   {
     AppResult out;
     const std::size_t n = H.lv[std::size_t(top)].n;
@@ -24,7 +25,7 @@ namespace c09
     if(st != FEAT::Solver::Status::success) c.viol("mg.apply", "status", vh::J().kv("application", which).kv("status", int(st)).str());
     out.x = read_vec(vx);
 
-    Reference ref = make_reference(H, top, crs, cycle, cgc, d, refseed);
+    Reference ref = make_reference(H, top, crs, cycle, cgc, d, refseed, true, exact_zeros, exact_first_rest);
     const bool trace_ok = check_trace(c, rig.lg, ref, cycle, top, crs, H.lv[std::size_t(crs)].has[SL_CRS], which);
     c.count(std::string("coarse_solves_") + cycle_name(cycle), std::uint64_t(stated_coarse_solves(cycle, top, crs)));
 
